@@ -110,6 +110,8 @@ def detect(i, tier, checks):
         for c in (checks or meta.get("detect_checks") or [meta["property"]]):
             env = dict(os.environ, VERIF_REPO=d, VERIF_EVIDENCE_DIR=os.path.join(d, "_ev"), VERIF_REPLAY_DIR=os.path.join(d, "_rp"),
                        VERIF_BUILD_ROOT=os.path.join(d, "_build"))
+            if meta.get("detect_subs"):      # only the named sub-commands of the tier (a thorough tier can take an hour; the mutant needs one case of it)
+                env["VERIF_ONLY_SUBS"] = meta["detect_subs"]
             t0 = time.time()
             try:
                 r = subprocess.run([os.path.join(V, "check"), c, tier], stdout=subprocess.PIPE, stderr=subprocess.STDOUT, text=True, env=env, cwd=V, timeout=2400)
